@@ -44,6 +44,9 @@ class Harness(Elaboratable):
 
     def elaborate(self, platform):
         m = Module()
+        # keeps the sync domain present so that amaranth.sim can clock purely combinational designs on replay
+        keep = Signal(name="_keep_sync")
+        m.d.sync += keep.eq(1)
         if self.dut is not None:
             m.submodules.dut = self.dut
         for n, a in self.ad.items():
@@ -126,17 +129,21 @@ def path_index(design):
 class Built:
     """An elaborated harness with its netlist and transition system."""
 
-    def __init__(self, make, deps=(), wrap=True, trace_functions=False):
+    def __init__(self, make, deps=(), wrap=True, trace_functions=False, tm=None):
         self.make = make
         self.deps = list(deps)
         self.wrap = wrap
+        self.tm = tm  # optional zero-argument factory of a TransactionManager (e.g. with another scheduler)
         self.functions = None
         self.dm = DependencyManager()
         with DependencyContext(self.dm):
             for k, v in self.deps:
                 self.dm.add_dependency(k, v)
             self.h = make()
-            self.top = TransactronContextElaboratable(self.h, dependency_manager=self.dm) if wrap else self.h
+            if wrap:
+                self.top = TransactronContextElaboratable(self.h, dependency_manager=self.dm, transaction_manager=tm() if tm else None)
+            else:
+                self.top = self.h
             if trace_functions:
                 from .util import FunctionTracer
 
@@ -265,7 +272,7 @@ class Obs:
         return self.fld(self.sig(f"{n}.out"), self.h.ad[n].data_out, field)
 
 
-def simulate(make, deps, wrap, trace, watch, force=None):
+def simulate(make, deps, wrap, trace, watch, force=None, tm=None):
     """Run Amaranth's Python simulator on a FRESH elaboration of the real code.
 
     trace: list over cycles of {harness input name: int}; watch: list of keys (harness names or path keys).
@@ -278,7 +285,7 @@ def simulate(make, deps, wrap, trace, watch, force=None):
         for k, v in deps:
             dm.add_dependency(k, v)
         h = make()
-        top = TransactronContextElaboratable(h, dependency_manager=dm) if wrap else h
+        top = TransactronContextElaboratable(h, dependency_manager=dm, transaction_manager=tm() if tm else None) if wrap else h
         sim = Simulator(top)
         sim.add_clock(1e-6)
         design = sim._design
@@ -316,10 +323,20 @@ def simulate(make, deps, wrap, trace, watch, force=None):
                         if hier not in mems:
                             raise HarnessError(f"replay: no memory {hier}")
                         ctx.set(mems[hier][row], val)
+                pending = []
                 for s, v in acc.values():
-                    if s.shape().signed and v >= (1 << (len(s) - 1)):
-                        v -= 1 << len(s)
-                    ctx.set(s, v)
+                    sv = v
+                    if s.shape().signed and sv >= (1 << (len(s) - 1)):
+                        sv -= 1 << len(s)
+                    try:
+                        ctx.set(s, sv)
+                    except Exception:  # combinationally driven alias of a register: follows the register itself
+                        pass
+                    pending.append((s, v))
+                for s, v in pending:
+                    got = int(ctx.get(s)) & ((1 << len(s)) - 1)
+                    if got != v:
+                        raise HarnessError(f"replay: could not force state signal {s!r} to {v} (reads {got})")
             for row in trace:
                 for n, v in row.items():
                     s = ins[n]
@@ -332,6 +349,83 @@ def simulate(make, deps, wrap, trace, watch, force=None):
                 out.append(o)
                 await ctx.tick()
 
+        sim.add_testbench(tb)
+        sim.run()
+    return out
+
+
+def simulate_same(built, trace, watch, force=None):
+    """Run Amaranth's Python simulator on the SAME elaborated Design the netlist was built from.
+
+    Needed because elaboration of the code under test is not always order-deterministic (e.g. schedulers iterate
+    over sets of bodies), so a fresh elaboration may number arbiter bits differently.  watch: {key: Signal}.
+    """
+    from amaranth.sim.pysim import PySimEngine
+
+    design = built.design
+    sim = Simulator.__new__(Simulator)
+    sim._design = design
+    sim._engine = PySimEngine(design)
+    sim._clocked = set()
+    sim._running = False
+    sim.add_clock(1e-6)
+    ins = built.h.input_signals()
+    pidx = None
+    out = []
+
+    def resolve(key):
+        nonlocal pidx
+        if key in built.names:
+            return built.names[key]
+        if pidx is None:
+            pidx = path_index(design)
+        if key not in pidx:
+            raise HarnessError(f"replay: no signal {key}")
+        return pidx[key]
+
+    async def tb(ctx):
+        if force:
+            mems = None
+            acc = {}
+            for ent, val in force:
+                if ent[0] == "sig":
+                    _, key, lsb, width = ent
+                    s = resolve(key)
+                    acc[id(s)] = (s, (val >> lsb) & ((1 << width) - 1))
+                else:
+                    if mems is None:
+                        mems = {"/".join(k): v for k, v in design_memories(design).items()}
+                    _, hier, row = ent
+                    if hier not in mems:
+                        raise HarnessError(f"replay: no memory {hier}")
+                    ctx.set(mems[hier][row], val)
+            pending = []
+            for s, v in acc.values():
+                sv = v
+                if s.shape().signed and sv >= (1 << (len(s) - 1)):
+                    sv -= 1 << len(s)
+                try:
+                    ctx.set(s, sv)
+                except Exception:  # combinationally driven alias of a register: follows the register itself
+                    pass
+                pending.append((s, v))
+            for s, v in pending:
+                got = int(ctx.get(s)) & ((1 << len(s)) - 1)
+                if got != v:
+                    raise HarnessError(f"replay: could not force state signal {s!r} to {v} (reads {got})")
+        for row in trace:
+            for n, v in row.items():
+                s = ins[n]
+                if s.shape().signed and v >= (1 << (len(s) - 1)):
+                    v -= 1 << len(s)
+                ctx.set(s, v)
+            o = {}
+            for k, s in watch.items():
+                o[k] = int(ctx.get(s)) & ((1 << len(s)) - 1)
+            out.append(o)
+            await ctx.tick()
+
+    with DependencyContext(built.dm):
         sim.add_testbench(tb)
         sim.run()
     return out
